@@ -20,7 +20,12 @@ def sched_env(rng, budget=200000):
 
 
 def n_cases(tier, quick, thorough):
-    return thorough if tier == "thorough" else quick
+    """number of generated cases; the thorough tier is scaled by VERIF_THOROUGH_SCALE (default 3:
+    tens of thousands of schedules per property, minutes of wall time on 16 cores)"""
+    import os
+    if tier == "thorough":
+        return int(thorough * float(os.environ.get("VERIF_THOROUGH_SCALE", "3")))
+    return quick
 
 
 
